@@ -474,3 +474,9 @@ M("c12-neutral-rename", "C12", "cola/libavoid/hyperedgetree.cpp",
   "    HyperedgeTreeNode *endNode = nullptr;\n    if (ends.first && (ends.first != ignored))\n    {\n        endNode = ends.first;\n        ends.first->addConns(this, router, oldConns, conn);",
   "    HyperedgeTreeNode *endNode = nullptr;\n    if (ends.first && (ends.first != ignored))\n    {\n        HyperedgeTreeNode *fst = ends.first;\n        endNode = fst;\n        fst->addConns(this, router, oldConns, conn);",
   expect="silent")
+
+# ---------------------------------------------------------------- C15 local address escape
+MUTANTS.append({"id": "c15-revert-local-escape", "prop": "C15", "expect": "fire", "mention": ["LOCAL-ADDR-ESCAPE"], "tu": None, "edits": [
+    {"file": "cola/libcola/cola.cpp", "count": 2,
+     "old": "        vector<straightener::Edge*>* sedges = straightenEdges;\n        if(!sedges && nonOverlappingClusters) {\n            sedges = &cedges;\n        }\n",
+     "new": "        if(!straightenEdges && nonOverlappingClusters) {\n            straightenEdges = &cedges;\n        }\n        vector<straightener::Edge*>* sedges = straightenEdges;\n"}]})
